@@ -25,6 +25,7 @@ import (
 	"testing"
 
 	"github.com/hashicorp/raft"
+	kzstd "github.com/klauspost/compress/zstd"
 	"github.com/rqlite/rqlite/v10/db"
 	"github.com/rqlite/rqlite/v10/internal/rarchive/zstd"
 	"github.com/rqlite/rqlite/v10/snapshot/proto"
@@ -241,16 +242,6 @@ func c10ErrTok(err error) string {
 	return "err-other:" + s
 }
 
-type c10DueFull bool
-
-func (d c10DueFull) DueNext() (Type, error) {
-	if d {
-		return Full, nil
-	}
-	return Incremental, nil
-}
-func (d c10DueFull) SetDueNext(Type) error { return nil }
-
 var c10Seq int
 
 // c10RunSink feeds the chunks to a real Sink the way raft does (stop and Cancel at the first
@@ -259,7 +250,8 @@ func c10RunSink(root string, chunks [][]byte, dueFull bool) (toks []string, dbb 
 	c10Seq++
 	id := fmt.Sprintf("2-%d-1", c10Seq)
 	meta := &raft.SnapshotMeta{ID: id, Index: uint64(c10Seq), Term: 2, Version: 1}
-	sink := NewSink(root, meta, c10DueFull(dueFull), nil)
+	sink := NewSink(root, meta, nil, nil) // no type controller: the incremental due-next check is not exercised here
+	_ = dueFull
 	sink.fatalFn = nil
 	if err := sink.Open(); err != nil {
 		return []string{"err-other:open:" + err.Error()}, nil, nil
@@ -793,6 +785,8 @@ func TestVerifC10(t *testing.T) {
 		c.one(s, c10Frame(ihb), "incremental-header-only", 4, 3, true)
 	}
 	c10StoreToStore(t, c)
+	c10Transport(t, c, shapes)
+	c10EmptyWriteAfterDone(t, c, shapes[0])
 	rep.vfCompareSegments("snapstream", c.segOps, c.segImpl)
 }
 
@@ -952,3 +946,128 @@ func (o c10OneByte) Read(p []byte) (int, error) {
 }
 
 func iotestOneByte(r io.Reader, one bool) io.Reader { return c10OneByte{r, one} }
+
+// c10EmptyWriteAfterDone: FullSink.Write refuses ANY write once every artifact is complete,
+// even an empty one.
+func c10EmptyWriteAfterDone(t *testing.T, c *c10Ctx, s *c10Shape) {
+	hb, h, _ := c10HeaderOf(s.strm)
+	ops := []string{fmt.Sprintf("hdr %s %s", vfHexB(hb), c10HdrTok(h, nil)), "sink 0"}
+	impl := []string{"ok", "ok"}
+	chunks := [][]byte{s.strm, {}}
+	toks, _, _ := c10RunSink(c.root, chunks, false)
+	for i, tk := range toks {
+		if i < len(chunks) {
+			ops = append(ops, "write "+vfHexB(chunks[i]))
+		} else {
+			ops = append(ops, "close")
+		}
+		impl = append(impl, tk)
+	}
+	c.rep.Count("empty-write-after-done")
+	c.rep.Case("empty-write-after-done", true)
+	c.segOps = append(c.segOps, ops)
+	c.segImpl = append(c.segImpl, impl)
+}
+
+// c10Transport: the compressing transport between two nodes, byte level. Sender: the real
+// Compressor (8-byte size ‖ zstd). Receiver: what raft hands over, io.LimitReader(conn, req.Size),
+// wrapped in the real Decompressor. Wire mutations: truncation, size-prefix changes, data beyond
+// the declared size, flips in the compressed body; plus a payload that does not compress.
+func c10Transport(t *testing.T, c *c10Ctx, shapes []*c10Shape) {
+	rep, r := c.rep, c.r
+	compress := func(payload []byte, declared int64) []byte {
+		comp, err := zstd.NewCompressor(bytes.NewReader(payload), declared, zstd.DefaultBufferSize)
+		if err != nil {
+			t.Fatal(err)
+		}
+		w, err := io.ReadAll(comp)
+		comp.Close()
+		if err != nil {
+			t.Fatal(err)
+		}
+		return w
+	}
+	recv := func(wire []byte, raftSize int) ([]byte, error) {
+		return io.ReadAll(zstd.NewDecompressor(io.LimitReader(bytes.NewReader(wire), int64(raftSize))))
+	}
+	// an incompressible snapshot: random page content
+	inc := &c10Shape{name: "incompressible-db", db: c10FakeDB(r, 3000)}
+	inc.finish(t)
+	all := append(append([]*c10Shape{}, shapes...), inc)
+	for si, s := range all {
+		if si >= vfScale(2, 1000) && s != inc && !s.real {
+			continue
+		}
+		payload := s.strm
+		wire := compress(payload, int64(len(payload)))
+		type mut struct {
+			name string
+			wire []byte
+		}
+		muts := []mut{{"none", wire}}
+		for _, k := range []int{0, 3, 8, 9, len(wire) / 2, len(wire) - 5, len(wire) - 1} {
+			if k >= 0 && k < len(wire) {
+				muts = append(muts, mut{"wire-truncated", wire[:k]})
+			}
+		}
+		setSize := func(n uint64) []byte {
+			w := append([]byte(nil), wire...)
+			binary.BigEndian.PutUint64(w[:8], n)
+			return w
+		}
+		muts = append(muts, mut{"size-prefix+1", setSize(uint64(len(payload)) + 1)}, mut{"size-prefix-1", setSize(uint64(len(payload)) - 1)},
+			mut{"size-prefix-doubled", setSize(uint64(len(payload)) * 2)}, mut{"size-prefix-zero", setSize(0)})
+		for k := 0; k < 3; k++ {
+			w := append([]byte(nil), wire...)
+			w[r.Intn(8)] ^= 1 << uint(r.Intn(8))
+			muts = append(muts, mut{"size-prefix-bit-flip", w})
+		}
+		muts = append(muts, mut{"data-beyond-declared-size", compress(append(append([]byte(nil), payload...), r.Bytes(1+r.Intn(40))...), int64(len(payload)))})
+		for k := 0; k < vfScale(6, 40); k++ {
+			w := append([]byte(nil), wire...)
+			w[8+r.Intn(len(w)-8)] ^= 1 << uint(r.Intn(8))
+			muts = append(muts, mut{"compressed-body-bit-flip", w})
+		}
+		for _, m := range muts {
+			raftSize := len(payload)
+			got, err := recv(m.wire, raftSize)
+			raw := m.wire
+			if len(raw) > raftSize {
+				raw = raw[:raftSize]
+			}
+			out, clean := []byte{}, false
+			if len(raw) >= 8 {
+				if dec, derr := kzstd.NewReader(bytes.NewReader(raw[8:]), kzstd.WithDecoderConcurrency(1)); derr == nil {
+					var rerr error
+					out, rerr = io.ReadAll(dec)
+					clean = rerr == nil
+					dec.Close()
+				}
+			}
+			tok := "ok "
+			if err != nil {
+				tok = "err "
+			}
+			c.segOps = append(c.segOps, []string{fmt.Sprintf("recv %d %s %s %s", raftSize, vfHexB(m.wire), vfHexB(out), map[bool]string{true: "1", false: "0"}[clean])})
+			c.segImpl = append(c.segImpl, []string{tok + vfHexB(got)})
+			rep.Count("transport-mutation=" + m.name)
+			rep.Case(fmt.Sprintf("transport|%x|%s", m.wire, s.name), true)
+			info := map[string]interface{}{"shape": s.name, "mutation": m.name, "payload_bytes": len(payload), "wire_bytes": len(m.wire), "wire_hex": fmt.Sprintf("%x", m.wire)}
+			delivered := err == nil && len(got) == raftSize
+			switch {
+			case m.name == "none" && !(delivered && bytes.Equal(got, payload)):
+				if len(wire) > len(payload) {
+					rep.Fail("transport-compression-cannot-carry-incompressible-snapshot",
+						fmt.Sprintf("payload %d bytes compresses to a %d-byte wire form; raft lets the receiver read only req.Size=%d bytes of it: received %d bytes, err=%v", len(payload), len(wire), len(payload), len(got), err), info)
+				} else {
+					rep.Fail("transport-compression-not-transparent", fmt.Sprintf("shape %s: received %d bytes err=%v", s.name, len(got), err), info)
+				}
+			case m.name != "none" && delivered && bytes.Equal(got, payload):
+				rep.Fail("corrupted-wire-accepted:data-identical:"+m.name, fmt.Sprintf("shape %s: the receiver got the exact payload from a changed wire form", s.name), info)
+			case m.name != "none" && delivered:
+				// different bytes of the right length reach the sink: it has to refuse them
+				c.one(s, got, "transport:"+m.name, 0, 3, false)
+			}
+		}
+	}
+}
